@@ -42,6 +42,12 @@ def build(ir):
         return complex(float.fromhex(ir["v"][0]), float.fromhex(ir["v"][1]))
     if t == "dt":
         return datetime.datetime.fromisoformat(ir["v"])
+    if t == "date":
+        return datetime.date.fromisoformat(ir["v"])
+    if t == "celsius":
+        return jt.Celsius(int(ir["v"]))
+    if t == "pcelsius":
+        return jt.PreciseCelsius(int(ir["v"][0]), int(ir["v"][1]))
     if t == "list":
         return [build(x) for x in ir["v"]]
     if t == "obj":
@@ -147,7 +153,8 @@ class C18(Check):
     rule = (
         "Hypothesis-generated recursive values (None, bool, int incl. >2^64, float incl. +-0.0/inf/nan/"
         "subnormals, unicode strings incl. NUL and lone surrogates, UUID, registered Decimal/Fraction/"
-        "complex/datetime, SubclassJSONSerializer instances of subclass depth 1..4, lists to depth 5 incl. "
+        "complex/datetime, two registered pairs related by inheritance - date (registered first) / datetime and "
+        "Celsius / PreciseCelsius (subtype registered first) -, SubclassJSONSerializer instances of subclass depth 1..4, lists to depth 5 incl. "
         "empty lists). Oracle: from_json(json.loads(json.dumps(to_json(v)))) structurally equal with "
         "identical types at every position, and every object's serialised dict carries module.qualname. "
         "Non-trivial: the value contains an instance of subclass depth >= 2 inside a list. Distinct = distinct IR."
@@ -187,6 +194,9 @@ class C18(Check):
             st.tuples(fin, fin).map(lambda p: dict(t="complex", v=list(p))),
             st.datetimes(min_value=datetime.datetime(1, 1, 1), max_value=datetime.datetime(9999, 12, 31)).map(
                 lambda d: dict(t="dt", v=d.isoformat())),
+            st.dates().map(lambda d: dict(t="date", v=d.isoformat())),
+            st.integers(-300, 300).map(lambda i: dict(t="celsius", v=i)),
+            st.tuples(st.integers(-300, 300), st.integers(0, 5)).map(lambda p: dict(t="pcelsius", v=list(p))),
         )
         from ..models import json_tree as jt
 
